@@ -1,7 +1,8 @@
 ------------------------------ MODULE ImportTrace ------------------------------
 (* Acceptor for recordings of the real interpreter (C17).  Input (IOEnv.CASES):               *)
 (*   [allow : <<names>>  (const.ALLOWED_IMPORTS of the code under test, read at run time),    *)
-(*    pys   : << [name, ctxname, scope] >>  (files the scenario placed below modules/, apps/), *)
+(*    pys   : << [name, ctxname, scope, pub, star] >>  (files the scenario placed below        *)
+(*            modules/, apps/; their public names and the names their star import binds),     *)
 (*    cases : << case >>]                                                                     *)
 (* case kinds                                                                                 *)
 (*  "import"  an ImportCore statement + obs = [exc, bound : <<names>>, vals : << [n, c] >>,    *)
@@ -23,7 +24,7 @@ EXTENDS ImportCore, TLC, Json, IOUtils
 In == JsonDeserialize(IOEnv.CASES)
 Cases == In.cases
 E == [allow |-> ToSet(In.allow), pys |-> ToSet(In.pys)]
-ImportFlags == <<"stubs-as-refused", "star-ignores-all", "from-missing-attributeerror", "compiled-native">>
+ImportFlags == <<"stubs-as-refused", "star-ignores-all", "from-missing-attributeerror", "compiled-native", "relative-falls-back-absolute">>
 LoggerBase == "custom_components.pyscript."
 
 Obs(cs) == Out(cs.obs.exc, ToSet(cs.obs.bound))
@@ -31,8 +32,8 @@ Obs(cs) == Out(cs.obs.exc, ToSet(cs.obs.bound))
 ValOK(cs, v, flags) ==
   \E k \in 1..Len(cs.clauses) :
     LET c == cs.clauses[k] IN
-      \/ /\ v.n \in UNION NamesOf(cs.form, c, cs.truth[k], flags)
-         /\ \/ v.c = ClassOf(cs, E, c)
+      \/ /\ v.n \in UNION NamesOf(cs.form, c, TruthOf(cs, k, E), flags)
+         /\ \/ v.c = ClassOf(cs, E, c, flags)
             \/ cs.via = "compiled" /\ "compiled-native" \in flags
       \/ cs.form = "import" /\ c.as = "-" /\ Len(c.parts) > 1 /\ v.n = c.parts[1] /\ v.c = "module:" \o c.parts[1]
 \* the names are bound in the mapping the call designates (ImportCore!Place) and in no other
@@ -67,7 +68,15 @@ LogOK(cs) == LET R == NameResolves(cs.fn, FALSE, cs.where = "global-decl") IN
                    /\ Len(cs.loggers) = 1
                    /\ cs.loggers[1] \in {LoggerBase \o cs.ctxname, LoggerBase \o cs.ctxname \o "." \o cs.func}
 
-Why(cs) == CASE cs.kind = "import"  -> IF ImportOK(cs, {}) THEN "" ELSE ImportWhy(cs)
+\* the recording is well-formed: relative levels only on from-imports, the scope of absolute names follows from the package
+WellFormed(cs) == /\ cs.ctx = AbsScope(cs)
+                  /\ cs.level \in 0..4
+                  /\ (cs.level > 0 <=> cs.form = "frompkg") \/ cs.form = "from"
+                  /\ Len(cs.truth) = Len(cs.clauses)
+                  /\ cs.ns \in NsForms
+                  /\ cs.via \in {"direct", "func", "compiled"} => cs.ns = NsNone       \* only eval / exec take namespace arguments
+                  /\ cs.via = "funcexec" => cs.ns # NsNone
+Why(cs) == CASE cs.kind = "import"  -> IF ~WellFormed(cs) THEN "malformed-recording" ELSE IF ImportOK(cs, {}) THEN "" ELSE ImportWhy(cs)
              [] cs.kind = "builtin" -> IF BuiltinOK(cs, {}) THEN ""
                                        ELSE IF BuiltinOK(cs, {"compiled-native-builtins"}) THEN "compiled-native-builtins"
                                        ELSE IF cs.out = "builtin" THEN "excluded-builtin-reachable"
